@@ -35,7 +35,7 @@ ARENAS = [a for a in encpipe.ARENAS if a["name"] in ("std-single", "std-multi", 
 
 
 def run(ctx):
-    res = encpipe.run(ctx, QUICK if ctx.quick else THOROUGH, arenas=ARENAS, dump_every=3)
+    res = encpipe.run(ctx, QUICK if ctx.quick else THOROUGH, arenas=ARENAS, dump_every=3 if ctx.quick else 12, dump_last_every=1 if ctx.quick else 12)
     c04.report(ctx, res, want_go=True, want_tlc=True)
     ncopy = sum(1 for m in [res["sample"]] for o in m["ops"] if o["op"] in ("setstruct", "copyfrom", "setroot"))
     c04.cover(ctx, res, "behaviours over 2-3 messages with copying operations (cross-message SetPtr/SetRoot/PointerList.Set, List.SetStruct, "
